@@ -32,7 +32,21 @@ REPORT_COUNTERS = ["positive", "negative", "through_validator", "hostile_first",
 HOSTILE_KEYS = ["", "/", "~", "~0", "~1", "~01", "~10", "~~", "%", "%25", "%41", "%zz", "%%", "#", "?", " ", "\"", "\\",
                 "'", "é", "é", "\U0001d11e", "0", "1", "01", "-1", "-", "+1", "a/b", "a~b", "a%2Fb", "m~n", "//",
                 "a b", "\t", "$ref", "definitions", "+", "&=", "::", "@", "^", "{}", "[0]", "|", "<>", "`"]
-NON_INDEX = ["-", "-1", "01", "+1", " 1", "1 ", "1_0", "1.0", "١", "１", "0x1", "1e0", "", "a", "00", "-0", "~0", "true"]
+NON_INDEX = ["-", "-1", "01", "+1", " 1", "1 ", "1_0", "1.0", "١", "１", "0x1", "1e0", "", "a", "00", "-0", "~0", "true",
+             "1٠", "1１", "١0", "1٠٠", "2٣", "1۰", "1０", "１０", "1²", "1½", "10\u0660", "१", "1१"]
+NON_ASCII_DIGITS = {"0": "٠۰０०", "1": "١۱１१", "2": "٢۲２२", "3": "٣۳３३", "4": "٤۴４४", "5": "٥۵５५", "6": "٦۶６६",
+                    "7": "٧۷７७", "8": "٨۸８८", "9": "٩۹９९"}
+
+
+def disguise(rng, index):
+    """A token that int() would read as `index` but that is not an RFC 6901 array index:
+    at least one digit replaced by a non-ASCII decimal digit of the same value."""
+    t = list(str(index))
+    k = rng.randrange(len(t))
+    for i in range(len(t)):
+        if i == k or rng.random() < 0.3:
+            t[i] = rng.choice(NON_ASCII_DIGITS[t[i]])
+    return "".join(t)
 
 
 def shards(tier):
@@ -42,7 +56,8 @@ def shards(tier):
 def floors(tier):
     f = {"positive": 20000, "negative": 10000, "through_validator": 1000, "hostile_first": 300,
          "hostile_middle": 300, "hostile_last": 300, "distinct_nontrivial": 10000}
-    for k in ("missing_key", "index_eq_len", "index_gt_len", "non_index_token", "token_on_scalar", "token_on_string"):
+    for k in ("missing_key", "index_eq_len", "index_gt_len", "non_index_token", "token_on_scalar", "token_on_string",
+              "disguised_in_range_index"):
         f["neg:" + k] = 500
     return f
 
@@ -51,6 +66,9 @@ def gen_doc(rng, depth):
     r = rng.random()
     if depth <= 0 or r < 0.25:
         return V.scalar(rng, hostile=0.05)
+    if r < 0.31:
+        # long arrays: multi-digit indices
+        return [rng.choice(["e%d" % i, i, [i], {"i": i}]) for i in range(rng.choice([11, 12, 25, 101]))]
     if r < 0.55:
         return [gen_doc(rng, depth - 1) for _ in range(rng.randrange(0, 4))]
     out = {}
@@ -154,8 +172,12 @@ def negative(ctx, rng, doc):
                 bad, cls = str(len(target)), "index_eq_len"
             elif r < 0.5:
                 bad, cls = str(len(target) + rng.randrange(1, 10 ** rng.choice([1, 3, 25]))), "index_gt_len"
-            else:
+            elif r < 0.75 or not target:
                 bad, cls = rng.choice(NON_INDEX), "non_index_token"
+            else:
+                # looks like an in-range index to int(), is not one
+                bad, cls = disguise(rng, rng.randrange(len(target))), "non_index_token"
+                ctx.count("neg:disguised_in_range_index")
         elif isinstance(target, str):
             bad, cls = rng.choice(["0", "1", "-1", "a", "", "length", "-"]), "token_on_string"
         else:
@@ -181,6 +203,7 @@ FIXED_DOCS = [
     [[["deep"]]], {"~01": 1, "~1": 2, "/": 3, "~": 4, "~0": 5}, {"%25": 1, "%": 2, "%2525": 3},
     {"0": "zero", "1": "one", "-1": "minus"}, [{"0": [0, 1, 2]}], {"a": {"0": 1}, "b": [10, 11]},
     {"é": {"\U0001d11e": [1]}}, {" ": {"#": {"?": 1}}},
+    {"long": ["e%d" % i for i in range(30)]}, [[i] for i in range(12)], {"a": [{"k": list(range(11))}]},
 ]
 
 
